@@ -223,14 +223,15 @@ impl Property for C05 {
     }
 
     fn generate(&self, rng: &mut Rng, tier: Tier) -> Case {
-        let family = match rng.below(22) {
+        let family = match rng.below(24) {
             0..=6 => "mutated",
             7..=8 => "alphabet",
             9 => "nesting",
             10..=16 => "ill-typed",
             17 => "documented",
             18..=19 => "expr-text",
-            _ => "repeated",
+            20..=21 => "repeated",
+            _ => "numbers",
         };
         let mut case = Case::new("C05", family);
         let max_records = if tier == Tier::Thorough { 30 } else { 8 };
@@ -288,6 +289,47 @@ impl Property for C05 {
                     Policy::Stderr,
                     Policy::Stdout,
                 ])));
+            }
+            "numbers" => {
+                // number-shaped tokens of every build: signs, long digit runs, fractions,
+                // exponents of both cases and signs, up to three exponent digits
+                let n = rng.range(1, 16);
+                let mut data = Vec::new();
+                for _ in 0..n {
+                    let mut t = String::new();
+                    if rng.chance(1, 3) {
+                        t.push('-');
+                    }
+                    let il = *rng.pick(&[0usize, 1, 1, 1, 2, 5, 15, 17, 19, 20, 25]);
+                    for k in 0..il {
+                        t.push(if k == 0 && il > 1 && rng.chance(3, 4) { *rng.pick(&['1', '9', '4']) } else { *rng.pick(&['0', '1', '5', '9', '7']) });
+                    }
+                    if rng.chance(1, 2) {
+                        t.push('.');
+                        let fl = *rng.pick(&[0usize, 1, 2, 6, 15, 22, 30]);
+                        for _ in 0..fl {
+                            t.push(*rng.pick(&['0', '0', '1', '5', '9']));
+                        }
+                    }
+                    if rng.chance(1, 2) {
+                        t.push(*rng.pick(&['e', 'e', 'e', 'E']));
+                        t.push_str(*rng.pick(&["", "-", "+", "-", "-"]));
+                        t.push_str(*rng.pick(&["0", "1", "5", "17", "21", "22", "23", "30", "300", "308", "309", "324", "999", ""]));
+                    }
+                    data.extend_from_slice(t.as_bytes());
+                    data.push(*rng.pick(&[b' ', b'\n', b',', b'\n']));
+                }
+                if rng.chance(1, 3) {
+                    let mut w = vec![b'['];
+                    w.extend_from_slice(&data);
+                    w.push(b']');
+                    data = w;
+                }
+                case.pieces = vec![Piece::raw(data)];
+                if rng.chance(1, 3) {
+                    case.opts.push(vec!["--select".into(), (*rng.pick(&["(+ . 1)=x", "(stringify .)=x", "(sort .)=x", "(* . 1e300)=x"])).to_string()]);
+                }
+                case.opts.push(policy_opt(*rng.pick(&[Policy::Ignore, Policy::Stderr, Policy::Stdout])));
             }
             "repeated" => {
                 // a long history of the same short fragment (valid, corrupted or random):
@@ -388,6 +430,12 @@ impl Property for C05 {
                 if rng.chance(1, 4) {
                     case.opts.push(vec![format!("-o={}", rng.pick(&["text", "json"]))]);
                 }
+                if rng.chance(1, 4) {
+                    case.opts.push(vec![format!("--regular-expression-cache-size={}", rng.pick(&[1usize, 2, 64]))]);
+                }
+                if rng.chance(1, 8) {
+                    case.opts.push(vec!["--only-objects-and-arrays".into()]);
+                }
             }
             _ => {
                 // expression texts with multi-byte characters at every offset around byte 32
@@ -428,7 +476,7 @@ impl Property for C05 {
             case.out = gen_sink_garnish(rng, 300);
             case.err = gen_sink_garnish(rng, 100);
         }
-        if matches!(family, "mutated" | "alphabet" | "nesting" | "repeated") && rng.chance(1, 4) {
+        if matches!(family, "mutated" | "alphabet" | "nesting" | "repeated" | "numbers") && rng.chance(1, 4) {
             // the same hostile bytes as a file argument behind the opener seam, in seeded
             // chunks underneath jawk's own BufReader (first chunks of 1-2 bytes included)
             let mut plan = gen_file_plan(rng, len);
@@ -461,7 +509,7 @@ impl Property for C05 {
             .filter(|e| e.chan == Chan::Read && !matches!(e.res, Res::Intr))
             .count();
         match case.family.as_str() {
-            "mutated" | "alphabet" | "nesting" | "repeated" => {
+            "mutated" | "alphabet" | "nesting" | "repeated" | "numbers" => {
                 if r.obs.consumed > 0 || r.obs.delivered > 0 || input.is_empty() {
                     ctx.stats.nontrivial = true;
                 }
